@@ -272,6 +272,7 @@ func init() {
 		handlerPanics := map[string]map[string]interface{}{}
 		var order []string
 		var samples []interface{}
+		var allSamples []scen.Sample
 		for i, p := range schedP {
 			if p.err != nil {
 				c25HarnessError("scheduler worker %d failed: %v\n%s", i, p.err, c25Tail(p.stderr, 30))
@@ -328,12 +329,21 @@ func init() {
 				}
 				handlerPanics[k]["executions"] = handlerPanics[k]["executions"].(int) + f.Count
 			}
-			for _, s := range p.out.Samples {
-				if len(samples) < 3 && (len(samples) == 0 || len(s.Devs) > 0) {
-					samples = append(samples, s)
+			allSamples = append(allSamples, p.out.Samples...)
+		}
+		// three schedules written out: a default one, one with whole calls interleaved, one with a preemption
+		sort.SliceStable(allSamples, func(i, j int) bool { return allSamples[i].Scenario < allSamples[j].Scenario })
+		pick := func(ok func(s *scen.Sample) bool) {
+			for i := range allSamples {
+				if ok(&allSamples[i]) {
+					samples = append(samples, allSamples[i])
+					return
 				}
 			}
 		}
+		pick(func(s *scen.Sample) bool { return len(s.Devs) == 0 })
+		pick(func(s *scen.Sample) bool { return len(s.Devs) > 0 && s.Cost == 0 })
+		pick(func(s *scen.Sample) bool { return s.Cost > 0 })
 		sort.Strings(order)
 		var states, transitions, execs, nontrivial, outcomes int64
 		exhaustive := true
